@@ -1109,9 +1109,10 @@ Proof.
   { gstep c6 Hs6.
     destruct (strip (line_of (rest c2))) as [|t0 text] eqn:Et.
     - gstep ce Hs7. fin.
-    - bstep (apply skip_ws_ok; auto) as u7 c7 d7 Hs7 ->. pose proof (skip_ctx_sz c2).
+    - set (k0 := (length (line_of (rest c2)) - length (strip_left (line_of (rest c2))))%nat).
+      bstep (apply set_ok; pose proof (advance_sz k0 c2); lia) as u7 c7 d7 Hs7 ->.
       gstep cbm Hs8.
-      bstep (apply set_ok; pose proof (advance_sz (length (t0 :: text)) (skip_ctx c2)); lia) as u9 c9 d9 Hs9 ->.
+      bstep (apply set_ok; pose proof (advance_sz (length (t0 :: text)) (advance k0 c2)); lia) as u9 c9 d9 Hs9 ->.
       gstep ce Hs10. fin. }
   bstep (apply look_ok with (Q := fun _ _ => True); [auto | eapply res_ok_conseq; [unfold closing_bracket; apply literal_ok; [auto | congruence] | auto]]) as m6 c6 d6 Hs6 [-> _].
   destruct (is_some m6). { gstep ce Hs7. fin. }
